@@ -15,7 +15,7 @@ PROPS["C03"] = {
                    "compared with a math/big affine computation of sum [s_i]P_i, for points [a]B+T_j (identity, torsion, mixed "
                    "order, arbitrary Z) and all classes of 255-bit scalars (unreduced, kL+e, 2^255-1, window patterns), with term "
                    "counts 0,1,2,3,8,20,<=64 and 189..192, 499..501, 799..801, on all four arithmetic backends, both through the "
-                   "public API and by calling each Generic/Vector implementation directly. Does not prove absence."),
+                   "public API and by calling each Generic/Vector implementation directly. Does not prove absence. When a term is the base point in decoded form, the operand handed to the library is the exported ED25519_BASEPOINT_POINT object itself."),
     "level_note": ("Trusted: math/big, verifref Edwards/ristretto model (validated against RFC 8032/9496 vectors), the elementary identity "
                    "[s]([a]B+T_j) = [s*a mod L]B + T_{s*j mod 8} (cross-checked at run time against term-by-term affine sums on a sample "
                    "of cases; a disagreement aborts with exit 2). Zero-value points are documented invalid and never used; "
